@@ -51,6 +51,12 @@ def _pick_ops(e):
     return any(_pick_ops(x) for x in e if isinstance(x, list))
 
 
+def rc_uses_cat(st):
+    def walk(e):
+        return isinstance(e, list) and ((len(e) > 0 and e[0] == "cat") or any(walk(x) for x in e if isinstance(x, list)))
+    return walk(st)
+
+
 def explain_dev(case, backend, i):
     """name of the deviation model that applies at step i for this backend (naming only;
     whether it explains the observed result is decided by comparing with the model's table)"""
@@ -66,6 +72,8 @@ def explain_dev(case, backend, i):
                 return "pandas_drops_null_groups"
             return "pandas_cum_null_hole"
         if op in ("extend", "select_rows"):
+            if op == "extend" and rc_uses_cat(st):
+                return "pandas_concat_null_as_text"
             return "pandas_null_cmp_false"
         if op in ("join", "joinc"):
             return "pandas_null_keys_match"
